@@ -137,6 +137,9 @@ class ProductDomain(Domain):
             # we just can create the bounds directly.
             bounds_a = self.domain_a.bounding_box(params, device=device)
             bounds_b = self.domain_b.bounding_box(params, device=device)
+            # factors may return one box per parameter row
+            bounds_a = self._common_bounding_box(bounds_a)
+            bounds_b = self._common_bounding_box(bounds_b)
             bounds_a = torch.cat((bounds_a, bounds_b))
         else:  # we have to sample some points in b, and approx the bounds.
             warnings.warn(
@@ -154,6 +157,8 @@ class ProductDomain(Domain):
             bounds_a = self.domain_a.bounding_box(
                 b_points.join(new_params), device=device
             )
+            bounds_a = self._common_bounding_box(bounds_a)
+            bounds_b = self._common_bounding_box(bounds_b)
             bounds_a = torch.cat((bounds_a, bounds_b))
         return bounds_a
 
